@@ -21,7 +21,7 @@ add("C03", "runtime differential monitor: ReadValue/ReadObject/ReadArray (packag
 add("C04", "runtime differential monitor: ReadFloat64/DecodeFloat64/ReadValue observed beside strconv.ParseFloat and exact big.Rat rounding on decimals constructed next to float midpoints through every Eisel-Lemire table row",
     "Exploration aimed at rounding boundaries: per table row decimals within ~1e-19 of a midpoint, exact midpoint expansions truncated at 15..770 digits +-1ulp, >800-digit sticky tails, overflow/underflow thresholds at every length. Right level: errors of a float parser live on measure-zero sets that only constructed inputs reach.",
     TB + " Oracle: strconv.ParseFloat, re-derived with exact rational arithmetic on a sample; exact arithmetic alone where strconv is itself wrong (integer part > 800 digits).", "§5 C04")
-add("C05", "runtime differential monitor: six Read* and six Decode* integer functions observed beside a math/big model on windows around every type bound and digit-count switch-over, with every follower byte",
+add("C05", "runtime differential monitor: six Read* and six Decode* integer functions observed beside a math/big model on windows around every type bound and digit-count switch-over, with every follower byte; the same again on a GOARCH=386 build (32-bit int/uint paths)",
     "Exploration: every value within +-300 (quick) / +-5,000 (thorough) of 26 boundary centres x 3 prefixes x 21 followers, hand shapes, random digit strings, byte sweep of top-level tokens.", TB, "§5 C05")
 add("C06", "runtime differential monitor: ReadStringBytes/ReadString/DecodeString/UnescapeStringContent observed beside the model string scanner on all 65,536 \\u units, surrogate grids, per-byte template sweeps and destination-capacity boundaries",
     "Exploration; all code units and every high/low surrogate enumerated, (high,low) grid sampled in quick and complete in thorough, destinations of capacity 0..need+4.", TB, "§5 C06")
